@@ -197,6 +197,50 @@ def shrink(pid, cfg, lines, pred, budget=150):
     return cur
 
 
+CLASS_FLAGS = {
+    'C01': ['C01W'], 'C02': ['C02', 'C02W', 'C02W_B'], 'C03': ['C03W_S1', 'C03W_S4', 'C03W_S5', 'C03W_S4R', 'C03W_S5R'],
+    'C04': [], 'C05': ['C05W'], 'C06': ['C06W'], 'C07': ['C01W'], 'C08': ['C08W', 'C08S'], 'C09': ['C11W', 'C10W'],
+    'C10': ['C10W', 'C10W_Q', 'C11W'], 'C11': ['C11W'], 'C12': ['C12W'], 'C13': ['C06W'], 'C14': ['C14W'],
+    'C15': ['C15W', 'C15W_L', 'C15D'], 'C16': ['C16W', 'C16D'], 'C17': ['C17W', 'C17W_O'], 'C18': ['C18W'], 'C19': ['C19W'],
+    'C20': ['C20W'],
+}
+
+
+def class_membership(pid, texts):
+    """How many of the scenarios compared with the model START in a world that satisfies the decidable
+    hypotheses of the property's closed-world theorems (evaluated by the compiled `spclass`, whose flags are
+    proved to mean those hypotheses: lean/Classes.lean, classReport_spec).  For such a scenario the theorem
+    applies to the model's run, and the correspondence says the implementation behaved like the model."""
+    exe = os.path.join(LEAN, '.lake', 'build', 'bin', 'spclass')
+    flags = CLASS_FLAGS.get(pid, [])
+    if not flags or not os.path.exists(exe) or not texts:
+        return {'flags': flags, 'note': 'C04: every scenario of family serial is a well-formed serial line (L.WF) by construction'
+                if pid == 'C04' else 'not evaluated'}
+    try:
+        p = subprocess.run([exe], input=''.join(texts), capture_output=True, text=True, timeout=600)
+    except Exception as e:
+        return {'flags': flags, 'note': f'spclass failed: {type(e).__name__}'}
+    counts = {f: 0 for f in flags}
+    evaluated = skipped = with_extops = 0
+    for line in p.stdout.splitlines():
+        t = line.split()
+        if len(t) < 3 or t[0] != 'class':
+            continue
+        if t[2] == 'skipped':
+            skipped += 1
+            continue
+        evaluated += 1
+        kv = dict(x.split('=', 1) for x in t[2:] if '=' in x)
+        if kv.get('extops', '0') != '0':
+            with_extops += 1
+        for f in flags:
+            if kv.get(f) == '1':
+                counts[f] += 1
+    return {'scenarios_evaluated': evaluated, 'skipped_lifecycle_or_decimal': skipped,
+            'inside_class': counts, 'scenarios_with_outside_operations_between_events': with_extops,
+            'meaning': 'initial world satisfies the hypotheses of the named closed-world theorem family (lean/Classes.lean)'}
+
+
 def write_replay(pid, payload):
     d = os.path.join(VERIF, 'evidence', 'replay')
     os.makedirs(d, exist_ok=True)
@@ -262,7 +306,7 @@ def main():
         # 1. regenerate the facts from /repo's current sources
         facts.write()
         # 2. build the property's proof modules and the model driver
-        rc, out, bt = lake_build(['spdriver'])
+        rc, out, bt = lake_build(['spdriver', 'spclass'])
         if rc is None or rc != 0:
             log('infrastructure: model driver does not build\n' + str(out)[-3000:])
             return 2
@@ -494,6 +538,7 @@ def main():
             'exhaustive_part': exhaustive_info,
             'build_s': round(bt + bt2, 1),
         }
+        cov['proved_class_membership'] = class_membership(pid, texts[:n_model])
         cov.update(extra_cov)
         if extra_stats is not None:
             cov['extra_checks'] = extra_stats
